@@ -48,7 +48,8 @@ SHAPES = [
      {'claw_is_pep526': False, 'claw_decor_place_func': 'FIRST', 'claw_decor_place_type': 'FIRST'}, (0, 1, 1)),
 ]
 # options resolved at run time through the `conf=` keyword (label, kwargs, model rt; rt=1: only the claw warning class differs from the default)
-RTS = [('', {}, 1), ('violation_type=UserWarning', {'violation_type': 'UserWarning'}, 2)]
+# run-time options (resolved by the injected `conf=` lookup, never baked into the bytecode): the marker need not tell them apart
+RTS = [('', {}, 1), ('violation_type=UserWarning', {'violation_type': 'UserWarning'}, 2), ('strategy=O0', {'strategy': 'O0'}, 3)]
 NCONF = len(SHAPES) * len(RTS)
 
 
@@ -277,7 +278,7 @@ def correspondence(lab: Lab, history, real, model) -> list:
                 if not imp['import'].startswith('raise:'):
                     got['import'], exp['import'] = imp['import'], 'raise:*'
             else:
-                ci = None if si is None else si * len(RTS) + {'1': 0, '2': 1}[rt]
+                ci = None if si is None else si * len(RTS) + {'1': 0, '2': 1, '3': 2}[rt]
                 eb = lab.oracle(ci, int(src))[m]['beh']
                 if beh_of(imp) != eb:
                     got['behaviour'], exp['behaviour'] = beh_of(imp), eb
